@@ -79,6 +79,8 @@ def run_harnesses(names, tier='quick'):
         h['name'] = n
         if h.get('tier', 'quick') == 'thorough' and tier != 'thorough':
             continue
+        if h.get('disabled'):
+            continue
         hs.append(h)
     out = {'report': [], 'cmds': [], 'obligations': 0, 'discharged': 0, 'violations': [], 'undecided': [], 'samples': []}
     if not hs:
